@@ -8,7 +8,7 @@ A *group* is one alphabet of Cobweb.tla with
 
 def C(**kw):
     base = dict(NSys=2, NOnce=0, NW=0, NER=0, NEnt=1, Hier=0, NTy=1, NVal=1, OpNames=set(), Modes=set(), MaxOps=2, Budget=3, MaxSteps=2,
-                StepKinds={"ops"}, Features=set(), Defects=set(), Mutants=set(), Scripted=False, FinalStep="")
+                StepKinds={"ops"}, Features=set(), Excl=set(), Defects=set(), Mutants=set(), Scripted=False, FinalStep="")
     base.update(kw)
     if "BodyOps" not in kw:
         base["BodyOps"] = base["MaxOps"]
@@ -22,8 +22,9 @@ GROUPS = {
         subst=dict(Bundles="B_One", InitOps="NoOps"),
         mc_quick=C(NSys=2, OpNames={"run", "sysev"}, MaxOps=3, Budget=4, MaxSteps=2, Features={"notake"}),
         mc_thorough=C(NSys=3, OpNames={"run", "sysev", "despsys"}, MaxOps=3, Budget=6, MaxSteps=2, Features={"err", "notake"}),
-        gen=C(NSys=3, OpNames={"run", "sysev", "despsys", "probe"}, MaxOps=3, Budget=9, MaxSteps=3, Features={"err", "notake", "take2"}),
-        rnd=dict(cfg=dict(kinds=["plain", "plain", "excl"], nonce=0, nent=1), alphabet=["run", "sysev", "despsys", "probe"],
+        gen=C(NSys=3, Excl={3}, OpNames={"run", "sysev", "xsysev", "despsys", "probe"}, MaxOps=3, Budget=9, MaxSteps=3, Features={"err", "notake", "take2"},
+              StepKinds={"ops", "direct"}),
+        rnd=dict(cfg=dict(kinds=["plain", "plain", "excl"], nonce=0, nent=1), alphabet=["run", "sysev", "xsysev", "despsys", "probe"], p_direct=15,
                  trigs=["bc"], max_ops=4, budget=12, steps=3, ntypes=1, p_gcpoll=10, init=[]),
     ),
     # events with listeners of all event kinds: C01 C03 C04 C05 C12
@@ -31,9 +32,10 @@ GROUPS = {
         subst=dict(Bundles="B_One", InitOps="Init_ListenRc"),
         mc_quick=C(NSys=3, OpNames={"bc", "eev", "sysev", "probe", "run"}, MaxOps=3, Budget=3, MaxSteps=2, Features={"notake"}),
         mc_thorough=C(NSys=3, OpNames={"bc", "eev", "sysev", "res", "run", "probe"}, MaxOps=2, Budget=5, MaxSteps=2, Features={"notake"}),
-        gen=C(NSys=3, NEnt=2, OpNames={"bc", "eev", "sysev", "res", "run", "probe", "despsys", "revoke"}, MaxOps=3, Budget=9, MaxSteps=3,
-              Features={"err", "notake", "take2"}, StepKinds={"ops", "gc"}),
-        rnd=dict(cfg=dict(kinds=["plain", "plain", "excl"], nonce=0, nent=2), alphabet=["bc", "eev", "sysev", "res", "run", "probe", "despsys", "revoke"],
+        gen=C(NSys=3, Excl={3}, NEnt=2, OpNames={"bc", "eev", "sysev", "xbc", "xeev", "xsysev", "res", "run", "probe", "despsys", "revoke"}, MaxOps=3, Budget=9, MaxSteps=3,
+              Features={"err", "notake", "take2"}, StepKinds={"ops", "gc", "direct"}),
+        rnd=dict(cfg=dict(kinds=["plain", "plain", "excl"], nonce=0, nent=2), p_direct=15,
+                 alphabet=["bc", "eev", "sysev", "xbc", "xeev", "xsysev", "res", "run", "probe", "despsys", "revoke"],
                  trigs=["bc"], max_ops=3, budget=12, steps=3, ntypes=2, p_gcpoll=10,
                  init=[["reg", "persistent", 1, [["bc", 1], ["eev", 1, 1], ["bc", 2]], 0], ["reg", "cleanup", 2, [["bc", 1], ["res", 1], ["anyev", 2]], 0],
                        ["reg", "revokable", 3, [["anyev", 1], ["bc", 1], ["eev", 2, 2]], 1]]),
@@ -59,13 +61,15 @@ GROUPS = {
         subst=dict(Bundles="B_Comp", InitOps="Init_Comp"),
         mc_quick=C(NSys=2, NEnt=2, NVal=2, OpNames={"ins", "set", "rm", "desp", "trig"}, MaxOps=2, Budget=3, MaxSteps=3,
                    StepKinds={"ops", "poll"}),
-        mc_thorough=C(NSys=2, NEnt=2, NVal=2, OpNames={"ins", "mut", "set", "rm", "desp", "trig", "noreact"}, MaxOps=2, Budget=4, MaxSteps=3,
+        mc_thorough=C(NSys=2, NEnt=2, NVal=2, OpNames={"ins", "mut", "set", "smut", "sset", "rm", "desp", "trig", "noreact"}, MaxOps=2, Budget=4, MaxSteps=3,
                       StepKinds={"ops", "poll", "clear"}),
-        gen=C(NSys=3, NEnt=2, NVal=2, OpNames={"ins", "mut", "set", "noreact", "rm", "desp", "trig", "reg", "revoke", "run", "resset", "resmut", "resno", "res", "sysevsig"},
-              Modes=ALLMODES, MaxOps=3, Budget=9, MaxSteps=4, StepKinds={"ops", "poll", "clear", "gc", "frame"}),
+        gen=C(NSys=3, NEnt=2, NVal=2, OpNames={"ins", "mut", "set", "noreact", "smut", "sset", "sno", "rm", "xrm", "desp", "xdesp", "trig", "reg", "revoke", "run",
+                                               "resset", "resmut", "resno", "res", "sysevsig"},
+              Modes=ALLMODES, MaxOps=3, Budget=9, MaxSteps=4, StepKinds={"ops", "poll", "clear", "gc", "frame", "direct"}),
         rnd=dict(cfg=dict(kinds=["plain", "plain", "plain"], nonce=1, nent=2),
-                 alphabet=["ins", "mut", "set", "noreact", "rm", "desp", "trig", "reg", "revoke", "run", "resset", "resmut", "resno", "res", "once", "probe", "sysevsig"],
-                 trigs=["ins", "mut", "rem", "eins", "emut", "erem", "desp", "res"], max_ops=3, budget=12, steps=4, ntypes=2, nvals=2, p_gcpoll=30, p_frame=30,
+                 alphabet=["ins", "mut", "set", "noreact", "smut", "sset", "sno", "rm", "xrm", "desp", "xdesp", "trig", "reg", "revoke", "run", "resset", "resmut", "resno",
+                           "res", "once", "probe", "sysevsig"],
+                 trigs=["ins", "mut", "rem", "eins", "emut", "erem", "desp", "res"], max_ops=3, budget=12, steps=4, ntypes=2, nvals=2, p_gcpoll=30, p_frame=30, p_direct=15,
                  init=[["ins", 1, 1, 1], ["ins", 2, 1, 1], ["reg", "persistent", 1, [["mut", 1], ["rem", 1], ["eins", 2, 1]], 0],
                        ["reg", "cleanup", 2, [["ins", 1], ["erem", 1, 1], ["desp", 2]], 0]]),
     ),
@@ -74,11 +78,11 @@ GROUPS = {
         subst=dict(Bundles="B_One", InitOps="Init_All"),
         mc_quick=C(NSys=2, NEnt=2, OpNames={"eev", "rm", "desp", "mut", "sysevsig"}, MaxOps=2, Budget=3, MaxSteps=3, StepKinds={"ops", "frame"}),
         mc_thorough=C(NSys=2, NEnt=2, OpNames={"eev", "bc", "rm", "desp", "mut", "ins", "run", "sysevsig"}, MaxOps=2, Budget=4, MaxSteps=3, StepKinds={"ops", "poll", "frame"}),
-        gen=C(NSys=3, NEnt=2, NVal=2, OpNames={"eev", "bc", "rm", "desp", "mut", "ins", "run", "sysev", "sysevsig", "despsys", "probe"}, MaxOps=3, Budget=9, MaxSteps=4,
-              StepKinds={"ops", "poll", "gc", "frame"}, Features={"err", "notake"}),
+        gen=C(NSys=3, NEnt=2, NVal=2, OpNames={"eev", "bc", "xeev", "xbc", "rm", "desp", "xdesp", "mut", "ins", "run", "sysev", "sysevsig", "despsys", "probe"}, MaxOps=3, Budget=9, MaxSteps=4,
+              StepKinds={"ops", "poll", "gc", "frame", "direct"}, Features={"err", "notake"}),
         rnd=dict(cfg=dict(kinds=["plain", "plain", "plain"], nonce=0, nent=2),
-                 alphabet=["eev", "bc", "rm", "desp", "mut", "ins", "run", "sysev", "sysevsig", "despsys", "probe", "set", "trig"],
-                 trigs=["bc"], max_ops=3, budget=12, steps=4, ntypes=2, nvals=2, p_gcpoll=25, p_frame=30,
+                 alphabet=["eev", "bc", "xeev", "xbc", "rm", "desp", "xdesp", "mut", "ins", "run", "sysev", "sysevsig", "despsys", "probe", "set", "trig"],
+                 trigs=["bc"], max_ops=3, budget=12, steps=4, ntypes=2, nvals=2, p_gcpoll=25, p_frame=30, p_direct=15,
                  init=[["ins", 1, 1, 1], ["ins", 2, 1, 1], ["ins", 1, 2, 1],
                        ["reg", "persistent", 1, [["bc", 1], ["eev", 1, 1], ["mut", 1], ["rem", 1]], 0],
                        ["reg", "persistent", 2, [["anyev", 1], ["ins", 1], ["erem", 1, 1], ["desp", 2]], 0],
